@@ -374,6 +374,17 @@ theorem numrecs_inv_repaired : numrecs_inv_Statement Fix.all := by
   intro n h hn ops
   exact numrecs_inv_partial Fix.all (initWorld n h) (init_inv n h hn) ops (goodRun_when_repaired _ (init_inv n h hn) ops)
 
+/-! ### configuration independence -/
+/-- neither the record-count protocol nor the invariant mentions the I/O configuration (aggregation hint, collective
+    header writes, file format): one call has the same effect under any two configurations, so `numrecs_inv_partial`
+    / `numrecs_inv_repaired` hold for every configuration.  (That the library really follows the same protocol on the
+    aggregation path is what the harness histories run with nc_num_aggrs_per_node = 1..n-1 tie down.) -/
+theorem config_independent (c1 c2 : IoConfig) (fx : Fix) (w : World) (op : Op) :
+    stepUnder c1 fx w op = stepUnder c2 fx w op := rfl
+
+theorem inv_step_any_config (c : IoConfig) (fx : Fix) (w : World) (op : Op) (hI : Inv w) (hg : Good fx w op) :
+    ∃ w', stepUnder c fx w op = some w' ∧ Inv w' ∧ Mono w w' := inv_step fx w op hI hg
+
 /-! ### reading the invariant -/
 /-- (a) after any call that leaves the file in collective data mode: every rank's count = the header field =
     one plus the highest record written by anybody (and the count the file started with) -/
@@ -522,6 +533,6 @@ def obligations : List String := [
   "numrecs_inv_counterexample_deadlock", "numrecs_inv_counterexample_partial_wait", "numrecs_inv_counterexample_vard",
   "numrecs_inv_needs_zeroPath", "numrecs_inv_needs_waitScan", "numrecs_inv_needs_vardGuard",
   "good_when_repaired", "numrecs_inv_repaired",
-  "collective_coherent", "sync_restores", "own_writes_readable", "schedule_independent"
+  "collective_coherent", "sync_restores", "own_writes_readable", "schedule_independent", "config_independent", "inv_step_any_config"
 ]
 end PnVerif.Props.C05
